@@ -10,6 +10,9 @@ TEMPLATES = ["/pets", "/pets/{id}", "/pets/{petId}/toys", "/pets/{petId}/toys/{t
 
 
 def prepare(case):
+    if case["op"] == "interop.req":
+        from checks import c06
+        return c06.prepare(case)
     d = case["in"]
     return {"op": case["op"], "in": {"ops": d["ops"], "spec": ops_spec(d["ops"]), "mode": "server-mod", "cfg": {}}}
 
@@ -70,6 +73,15 @@ def cases(ctx):
         out.append({"op": "server.op", "in": {"ops": [{"opid": "one", "method": "get", "path": "/x", "params": [], "body": None, "responses": [[code, LAYOUTS["json"]], ["default", LAYOUTS["none"]]]}]}})
     for _ in range(250 if ctx.quick else 2500):
         out.append(rand_case(r, overlap=r.random() < 0.1))
+    # what the handler is handed for an enum / scalar parameter in every location, under each enum mode: the server's
+    # decoders (FromStr, Deserialize, header lookup) read through the request-side facts shared with C06
+    from checks import c06
+    for vals in c06.REQ_ENUMS:
+        for em in ("merge", "preserve", "relaxed"):
+            for loc in ("header", "query", "path"):
+                for req in ((True, False) if loc != "path" else (True,)):
+                    ps = [{"name": "e", "in": loc, "level": "op", "type": "enum", "enum": vals, "required": req}]
+                    out.append({"op": "interop.req", "in": {"ops": [{"opid": "op", "method": "get", "path": "/e/{e}" if loc == "path" else "/e", "params": ps, "body": None}], "cfg": {"enum_mode": em}}})
     return out
 
 
@@ -91,5 +103,5 @@ def run(ctx):
     return ctx.finish(
         checker_cmd="lake build Oas3Model.Props.C05 && #print axioms on every theorem" + ("" if ctx.quick else " && leanchecker"),
         trusted_base=vlib.TRUSTED_BASE + ["axum/matchit routing semantics (segment-wise match, conflicting patterns rejected) as stated in Model/Server.lean", "axum extractors and Json encoding are not modelled beyond which one is emitted", "syn extraction of router/handlers/IntoResponse"],
-        rule="server-mod generation of specs with 1-5 operations over 9 path templates (several operations per path, overlapping templates, mixed segments), all 8 methods, path/query/header params at both levels, bodies, and response sets over exact/range/default keys x 5 media layouts, every named exact code once; router table, handler signatures and IntoResponse tables parsed with syn, compared with the model and judged; non-trivial = >=1 operation; distinct by input hash",
+        rule="server-mod generation of specs with 1-5 operations over 9 path templates (several operations per path, overlapping templates, mixed segments), all 8 methods, path/query/header params at both levels, bodies, and response sets over exact/range/default keys x 5 media layouts, every named exact code once; + enum parameters (8 value sets with upper / mixed / lower-case spellings) in header / query / path x 3 enum modes x required/optional through the request-side facts (what the server's FromStr / Deserialize / header lookup hand to the handler); router table, handler signatures and IntoResponse tables parsed with syn, compared with the model and judged; non-trivial = >=1 operation; distinct by input hash",
         assumptions=["trait-method doc lines (`* Path: `METHOD template``) identify the operation a handler belongs to"])
